@@ -130,18 +130,24 @@ func vrtHarness_C07_cancel() {
 // transport created has ended.
 func vrtHarness_C07_close() {
 	kind := vrtChoice(3)
-	dialBlocks := vrtChoice(2) == 1
+	dialMode := vrtChoice(3)
+	dialBlocks := dialMode == 1
+	closeReturned := false
 	var conns []*vrtConn
 	dials := 0
 	t := vrtMkTransport(kind, func(ctx context.Context) (NetConn, error) {
+		vrtAtomic(func() { dials++ })
+		if dialMode == 2 {
+			// a dial that was under way when Close ran and still completes with a connection
+			vrtAwait(func() bool { return closeReturned }, func() {})
+			vrtCover("dial completes after Close", true)
+		}
 		if dialBlocks {
-			vrtAtomic(func() { dials++ })
 			<-ctx.Done() // a dial in progress: ends only when the transport cancels it
 			return nil, ctx.Err()
 		}
 		var c *vrtConn
 		vrtAtomic(func() {
-			dials++
 			c = &vrtConn{stream: kind != 1}
 			conns = append(conns, c)
 		})
@@ -156,6 +162,7 @@ func vrtHarness_C07_close() {
 		vrtWaitQuiescent() // the call is waiting for its reply ...
 	} // ... or Close races with the call at any earlier point
 	t.Close()
+	vrtAtomic(func() { closeReturned = true })
 	vrtFreezeTimers()
 	err := <-done
 	vrtCover("pending call returned", true)
